@@ -7,9 +7,11 @@ import (
 	"encoding/json"
 	"flag"
 	"fmt"
+	"io/fs"
 	"os"
 	"os/exec"
 	"path/filepath"
+	"runtime/debug"
 	"sort"
 	"strings"
 	"sync"
@@ -123,6 +125,14 @@ type c16case struct {
 	Pkgs   []c16pkg `json:"pkgs"`
 	Region string   `json:"region"`
 	Stream string   `json:"stream"`
+	// Contract: the outcome the property itself prescribes ("cycle"), used as the reference when the
+	// toolchain refuses the layout (cmd/go rejects relative imports inside GOPATH packages)
+	Contract string `json:"contract,omitempty"`
+	NoLabel  bool   `json:"nolabel,omitempty"` // constructed case: the region label is not cross-checked in Coq
+	// Quiet: the packages import nothing but one another and print nothing. (A binary import such as
+	// "fmt" makes a second gta of the same package fail with "redeclared", which would turn an
+	// unbounded import recursion into an ordinary error.)
+	Quiet bool `json:"quiet,omitempty"`
 }
 
 type c16world struct {
@@ -877,13 +887,270 @@ func (g *c16gen) regionCase(region string) *c16case {
 	return nil
 }
 
+// ---------------------------------------------------------------- the cycle matrix
+
+// An import cycle must be reported whatever kinds of import make it up. cycleCase builds one
+// program with a cycle of len(kinds) packages: kinds[k] is the kind of the import from node k to
+// node k+1 (the last one closes the cycle): 'G' an ordinary import path resolved in GOPATH/src,
+// 'V' an import path resolved in the vendor directory of the importer, 'R' a relative import
+// (to a child directory or to a sibling). lead is the kind of the import that reaches node 0.
+//
+// layouts:
+//
+//	P  entry = import path of a main package in GOPATH            (G, V)
+//	S  entry = file gp/src/p.go: its directory is GOPATH/src, so relative imports between GOPATH
+//	   packages resolve where Go resolves them and chains can mix all kinds        (G, V, R)
+//	W  entry = file work/m/p.go outside GOPATH: packages below work/ import one another relatively  (R)
+//	X  entry = file work/m/p.go, a relative import leads to a package that enters a GOPATH cycle (R lead-in; G, V)
+func (g *c16gen) cycleCase(layout byte, lead byte, kinds string, leadIn, quiet bool) *c16case {
+	gs := c16Split(c16Gsrc)
+	c := &c16case{NoLabel: true, Contract: "cycle", Quiet: quiet}
+	var importer []string // directory of the package that imports node 0
+	var base []string     // relative imports must stay below it
+	switch layout {
+	case 'P':
+		c.Entry = "e"
+		importer, base = append(append([]string{}, gs...), "e"), gs
+	case 'S':
+		c.File, c.Entry = true, c16Gsrc
+		importer, base = gs, gs
+	case 'W', 'X':
+		c.File, c.Entry = true, "work/m"
+		importer, base = []string{"work", "m"}, []string{"work"}
+	}
+	entryDir := strings.Join(importer, "/")
+	imports := map[string][]string{}
+	add := func(dir []string, ip string) {
+		k := strings.Join(dir, "/")
+		imports[k] = append(imports[k], ip)
+	}
+	var order []string
+	touch := func(dir []string) {
+		k := strings.Join(dir, "/")
+		if _, ok := imports[k]; !ok {
+			imports[k] = nil
+			order = append(order, k)
+		}
+	}
+	touch(importer)
+	// a leaf imported first, so that there is output before the error
+	if !quiet {
+		leaf := append(append([]string{}, gs...), "zz")
+		touch(leaf)
+		add(importer, "zz")
+	}
+	// step: the directory and import path of a new package reached from dir by an import of kind k
+	step := func(from []string, k byte, name string) (dir []string, ip string, ok bool) {
+		switch k {
+		case 'G':
+			return append(append([]string{}, gs...), name), name, true
+		case 'V':
+			if !c16HasPrefix(gs, from) {
+				return nil, "", false
+			}
+			return append(append(append([]string{}, from...), c16Vendor), name), name, true
+		case 'R':
+			if len(from) > len(base) && g.r.chance(50) {
+				return append(append([]string{}, from[:len(from)-1]...), name), "../" + name, true
+			}
+			return append(append([]string{}, from...), name), "./" + name, true
+		}
+		return nil, "", false
+	}
+	if layout == 'X' || leadIn {
+		k := byte('G')
+		if layout == 'W' || layout == 'X' || (layout == 'S' && g.r.bool()) {
+			k = 'R'
+		}
+		d, ip, ok := step(importer, k, "la")
+		if !ok {
+			return nil
+		}
+		touch(d)
+		add(importer, ip)
+		importer = d
+	}
+	if lead == 'V' && len(importer) == len(gs) {
+		// cmd/go does not look into GOPATH/src/vendor for a file that lies in GOPATH/src itself
+		return nil
+	}
+	names := []string{"ca", "cb", "cc", "cd"}
+	nodes := make([][]string, len(kinds))
+	d, ip, ok := step(importer, lead, names[0])
+	if !ok {
+		return nil
+	}
+	nodes[0] = d
+	touch(d)
+	add(importer, ip)
+	for k := 0; k+1 < len(kinds); k++ {
+		d, ip, ok := step(nodes[k], kinds[k], names[k+1])
+		if !ok {
+			return nil
+		}
+		nodes[k+1] = d
+		touch(d)
+		add(nodes[k], ip)
+	}
+	// the closing import, from the last node back to node 0
+	last, first := nodes[len(kinds)-1], nodes[0]
+	switch kinds[len(kinds)-1] {
+	case 'G':
+		if !c16HasPrefix(gs, first) {
+			return nil
+		}
+		rel := first[len(gs):]
+		for i := len(rel) - 1; i >= 0; i-- {
+			if rel[i] == c16Vendor {
+				rel = rel[i+1:]
+				break
+			}
+		}
+		add(last, strings.Join(rel, "/"))
+	case 'R':
+		n := 0
+		for n < len(last) && n < len(first) && last[n] == first[n] {
+			n++
+		}
+		up, down := len(last)-n, first[n:]
+		if len(down) == 0 { // an ancestor (or the package itself): go one level higher and come back
+			if n == 0 {
+				return nil
+			}
+			up, down = up+1, first[n-1:]
+		}
+		if up == 0 {
+			add(last, "./"+strings.Join(down, "/"))
+		} else {
+			add(last, strings.Repeat("../", up)+strings.Join(down, "/"))
+		}
+	default:
+		return nil
+	}
+	for _, k := range order {
+		c.Pkgs = append(c.Pkgs, c16pkg{Dir: k, Imports: imports[k]})
+	}
+	if c.mainDir() != entryDir {
+		return nil
+	}
+	// every import must resolve (per Go) to the package it was built for: the cycle is real
+	w := newC16World(c)
+	reach := map[string]bool{}
+	for _, d := range c.reachable() {
+		reach[d] = true
+	}
+	for _, nd := range nodes {
+		if !reach[strings.Join(nd, "/")] {
+			return nil
+		}
+	}
+	for _, p := range c.Pkgs {
+		for _, ip := range p.Imports {
+			if t, ok := w.gImport(p.Dir, ip); !ok || !w.goSet[t] {
+				return nil
+			}
+		}
+	}
+	c.Region = w.classify()
+	c.Stream = fmt.Sprintf("cycle-matrix:%c:%c>%s", layout, lead, kinds)
+	if leadIn {
+		c.Stream += ":lead-in"
+	}
+	if quiet {
+		c.Stream += ":quiet"
+	}
+	return c
+}
+
+// cycleMatrix enumerates layouts x cycle lengths 1..4 x kinds of every edge (all of them up to
+// maxFull packages, a seeded sample of the longer ones), each with and without a lead-in package.
+func (g *c16gen) cycleMatrix(maxFull, sample int) []*c16case {
+	type lay struct {
+		l                  byte
+		lead, inner, close string
+	}
+	lays := []lay{{'P', "GV", "GV", "G"}, {'S', "GVR", "GVR", "GR"}, {'W', "R", "R", "R"}, {'X', "G", "GV", "G"}}
+	var out []*c16case
+	seen := map[string]bool{}
+	emit := func(c *c16case) {
+		if c == nil {
+			return
+		}
+		k := fmt.Sprint(c.File, c.Entry, c.Pkgs)
+		if !seen[k] {
+			seen[k] = true
+			out = append(out, c)
+		}
+	}
+	for _, ly := range lays {
+		for n := 1; n <= 4; n++ {
+			var all []string
+			var rec func(prefix string)
+			rec = func(prefix string) {
+				if len(prefix) == n-1 {
+					for _, cl := range ly.close {
+						all = append(all, prefix+string(cl))
+					}
+					return
+				}
+				for _, k := range ly.inner {
+					rec(prefix + string(k))
+				}
+			}
+			rec("")
+			if n > maxFull && len(all) > sample {
+				g.shuffle(all)
+				all = all[:sample]
+				sort.Strings(all)
+			}
+			reps := 1
+			if ly.l == 'W' {
+				reps = 3 // child / sibling directories are drawn at random: several shapes per length
+			}
+			for _, kinds := range all {
+				for rep := 0; rep < reps; rep++ {
+					for _, lead := range ly.lead {
+						if n > maxFull && !g.r.chance(50) {
+							continue
+						}
+						// half of them quiet; the purely relative layout in both styles
+						quiet := g.r.bool()
+						emit(g.cycleCase(ly.l, byte(lead), kinds, false, quiet))
+						if ly.l == 'W' {
+							emit(g.cycleCase(ly.l, byte(lead), kinds, false, !quiet))
+						}
+						if n <= 2 || g.r.chance(30) {
+							emit(g.cycleCase(ly.l, byte(lead), kinds, true, g.r.bool()))
+						}
+					}
+				}
+			}
+		}
+	}
+	return out
+}
+
 // ---------------------------------------------------------------- rendering a program
 
-func c16Source(i int, p c16pkg, isMain bool) string {
+func c16Source(i int, p c16pkg, isMain, quiet bool) string {
 	var b strings.Builder
 	name := fmt.Sprintf("pk%d", i)
 	if isMain {
 		name = "main"
+	}
+	if quiet {
+		fmt.Fprintf(&b, "package %s\n\n", name)
+		for j, ip := range p.Imports {
+			fmt.Fprintf(&b, "import x%d %q\n", j, ip)
+		}
+		fmt.Fprintf(&b, "\nvar Dir = %q\n", p.Dir)
+		for j := range p.Imports {
+			fmt.Fprintf(&b, "\nvar _ = x%d.Dir\n", j)
+		}
+		if isMain {
+			fmt.Fprintf(&b, "\nfunc main() {}\n")
+		}
+		return b.String()
 	}
 	fmt.Fprintf(&b, "package %s\n\nimport (\n\t\"fmt\"\n", name)
 	for j, ip := range p.Imports {
@@ -910,7 +1177,7 @@ func (c *c16case) mainDir() string {
 func (c *c16case) files() map[string]string {
 	m := map[string]string{}
 	for i, p := range c.Pkgs {
-		m[p.Dir+"/p.go"] = c16Source(i, p, p.Dir == c.mainDir())
+		m[p.Dir+"/p.go"] = c16Source(i, p, p.Dir == c.mainDir(), c.Quiet)
 	}
 	return m
 }
@@ -928,20 +1195,23 @@ func (c *c16case) coq() string {
 	if c.File {
 		entryDir, entryPath = c.Entry, ""
 	}
-	return fmt.Sprintf("%s, %s, mkctx %s %s %s, pth %s", coqBool(c.Region == ""), coqBool(c.File), coqRawStr(c16Gsrc), coqRawStr(entryDir), coqList(ps), coqRawStr(entryPath))
+	return fmt.Sprintf("%s, %s, mkctx %s %s %s, pth %s", coqOpt(!c.NoLabel, coqBool(c.Region == "")), coqBool(c.File), coqRawStr(c16Gsrc), coqRawStr(entryDir), coqList(ps), coqRawStr(entryPath))
 }
 
 // outcome of one evaluation: the printed lines and the class of the error
 type c16out struct {
 	Lines []string `json:"lines"`
-	Err   string   `json:"err"`  // "" | notfound | cycle | nogo | other
-	Text  string   `json:"text"` // first line of the error, for the replay
+	Err   string   `json:"err"`             // "" | notfound | cycle | nogo | other
+	Text  string   `json:"text"`            // first line of the error, for the replay
+	Opens int      `json:"opens,omitempty"` // MapFS runs: number of files and directories opened
 }
 
 func c16ErrClass(msg string) string {
 	switch {
 	case msg == "":
 		return ""
+	case strings.Contains(msg, "c16: open budget"):
+		return "other" // the recursion did not terminate
 	case strings.Contains(msg, "import cycle not allowed"):
 		return "cycle"
 	case strings.Contains(msg, "no Go files in"), strings.Contains(msg, "no non-test Go files"), strings.Contains(msg, "build constraints exclude all Go files"):
@@ -1048,11 +1318,37 @@ func c16EvalOne(opts interp.Options, path string, timeout time.Duration) c16out 
 	}
 }
 
+// c16BudgetFS refuses to open more than limit files: an import recursion that does not terminate
+// ends with an ordinary error (class "other": no model produces it) instead of exhausting memory.
+type c16BudgetFS struct {
+	fs.FS
+	mu    sync.Mutex
+	opens int
+	limit int
+}
+
+func (f *c16BudgetFS) Open(name string) (fs.File, error) {
+	f.mu.Lock()
+	f.opens++
+	over := f.opens > f.limit
+	f.mu.Unlock()
+	if over {
+		return nil, &fs.PathError{Op: "open", Path: name, Err: fmt.Errorf("c16: open budget of %d exhausted, import recursion does not terminate", f.limit)}
+	}
+	return f.FS.Open(name)
+}
+
+const (
+	c16MaxStack   = 48 << 20 // bytes: a runaway recursion on disk dies quickly with "stack overflow"
+	c16OpenBudget = 2000     // the programs of this generator need fewer than 100 opens (measured: e2e:max-opens-of-a-mapfs-run)
+)
+
 func runC16Eval(args []string) error {
-	fs := flag.NewFlagSet("c16-eval", flag.ExitOnError)
-	root := fs.String("root", "", "scratch root holding the tree on disk")
-	fs.Parse(args)
-	b, err := os.ReadFile(fs.Arg(0))
+	fl := flag.NewFlagSet("c16-eval", flag.ExitOnError)
+	root := fl.String("root", "", "scratch root holding the tree on disk")
+	mode := fl.String("mode", "disk", "disk|mapfs")
+	fl.Parse(args)
+	b, err := os.ReadFile(fl.Arg(0))
 	if err != nil {
 		return err
 	}
@@ -1060,17 +1356,26 @@ func runC16Eval(args []string) error {
 	if err := json.Unmarshal(b, &c); err != nil {
 		return err
 	}
-	mfs := fstest.MapFS{}
-	for name, src := range c.files() {
-		mfs[name] = &fstest.MapFile{Data: []byte(src)}
-	}
-	var res c16evalRes
-	if c.File {
-		res.Disk = c16EvalOne(interp.Options{GoPath: filepath.Join(*root, "gp")}, filepath.Join(*root, c.Entry, "p.go"), 90*time.Second)
-		res.MapFS = c16EvalOne(interp.Options{GoPath: "gp", SourcecodeFilesystem: mfs}, c.Entry+"/p.go", 90*time.Second)
+	debug.SetMaxStack(c16MaxStack)
+	var res c16out
+	if *mode == "mapfs" {
+		mfs := fstest.MapFS{}
+		for name, src := range c.files() {
+			mfs[name] = &fstest.MapFile{Data: []byte(src)}
+		}
+		bfs := &c16BudgetFS{FS: mfs, limit: c16OpenBudget}
+		path := c.Entry
+		if c.File {
+			path = c.Entry + "/p.go"
+		}
+		res = c16EvalOne(interp.Options{GoPath: "gp", SourcecodeFilesystem: bfs}, path, 90*time.Second)
+		res.Opens = bfs.opens
 	} else {
-		res.Disk = c16EvalOne(interp.Options{GoPath: filepath.Join(*root, "gp")}, c.Entry, 90*time.Second)
-		res.MapFS = c16EvalOne(interp.Options{GoPath: "gp", SourcecodeFilesystem: mfs}, c.Entry, 90*time.Second)
+		path := c.Entry
+		if c.File {
+			path = filepath.Join(*root, c.Entry, "p.go")
+		}
+		res = c16EvalOne(interp.Options{GoPath: filepath.Join(*root, "gp")}, path, 90*time.Second)
 	}
 	return json.NewEncoder(os.Stdout).Encode(res)
 }
@@ -1103,19 +1408,29 @@ func c16Run(c *c16case) (impl c16evalRes, ref c16out, err error) {
 		return impl, ref, err
 	}
 	self, _ := os.Executable()
-	{
+	child := func(mode string) c16out {
 		ctx, cancel := context.WithTimeout(context.Background(), 200*time.Second)
-		cmd := exec.CommandContext(ctx, self, "c16-eval", "-root", root, cfile)
+		defer cancel()
+		cmd := exec.CommandContext(ctx, self, "c16-eval", "-mode", mode, "-root", root, cfile)
 		var out, errb bytes.Buffer
 		cmd.Stdout, cmd.Stderr = &out, &errb
 		cmd.Dir = cwd
 		rerr := cmd.Run()
-		cancel()
-		if json.Unmarshal(out.Bytes(), &impl) != nil || rerr != nil {
-			crash := c16out{Err: "other", Text: "host crash: " + firstLine(fmt.Sprint(rerr)) + ": " + firstLine(errb.String())}
-			impl = c16evalRes{Disk: crash, MapFS: crash}
+		var r c16out
+		if json.Unmarshal(out.Bytes(), &r) != nil || rerr != nil {
+			// the process died (stack overflow of an unbounded recursion, fatal error, kill on timeout)
+			msg := firstLine(errb.String())
+			for _, l := range strings.Split(errb.String(), "\n") {
+				if strings.HasPrefix(l, "fatal error:") {
+					msg = l
+				}
+			}
+			return c16out{Err: "other", Text: "host crash: " + firstLine(fmt.Sprint(rerr)) + ": " + msg}
 		}
+		return r
 	}
+	impl.Disk = child("disk")
+	impl.MapFS = child("mapfs")
 	{
 		ctx, cancel := context.WithTimeout(context.Background(), 300*time.Second)
 		arg := "."
@@ -1148,6 +1463,9 @@ func c16Run(c *c16case) (impl c16evalRes, ref c16out, err error) {
 				ref.Err = "several" // rendered as [Some EFuel]: any error of G fits (Imports/Cases.v)
 			}
 			ref.Lines = nil
+		}
+		if c.Contract != "" && (ref.Err == "other" || ref.Err == "several") {
+			ref = c16out{Err: c.Contract, Text: "contract (the toolchain refuses this layout: " + ref.Text + ")"}
 		}
 	}
 	return impl, ref, nil
@@ -1403,7 +1721,11 @@ func runC16(args []string) error {
 	defer os.RemoveAll(tmp)
 
 	// ------------------------------------------------------------ A. function level
+	only := os.Getenv("VERIF_C16_ONLY") // debugging aid: "matrix" runs the cycle matrix alone
 	fnCases := g.fnCases(thorough)
+	if only != "" {
+		fnCases = nil
+	}
 	fnRes, notes := c16RunFn(fnCases, tmp)
 	sm.Notes = append(sm.Notes, notes...)
 	var effCases, prevCases, pkgCases []string
@@ -1471,7 +1793,18 @@ func runC16(args []string) error {
 			progs = append(progs, g.errorCase(k))
 		}
 	}
+	if only == "matrix" {
+		progs = nil
+	}
+	if thorough {
+		progs = append(progs, g.cycleMatrix(4, 0)...)
+	} else {
+		progs = append(progs, g.cycleMatrix(2, 5)...)
+	}
 	regions := []string{"subdir-shadow", "memo-by-path", "xx-collapse", "vendor-nogofiles", "relative-nonentry", "relative-root", "entry-file-vendor"}
+	if only != "" {
+		regions = nil
+	}
 	for _, reg := range regions {
 		for i := 0; i < nRegion; i++ {
 			if c := g.regionCase(reg); c != nil {
@@ -1507,7 +1840,28 @@ func runC16(args []string) error {
 		sm.Evaluations++
 		sm.ImplComparisons++
 		sm.RefComparisons++
-		sm.count("e2e:" + c.Stream)
+		if strings.HasPrefix(c.Stream, "cycle-matrix:") {
+			f := strings.Split(c.Stream, ":")
+			sm.count("e2e:cycle-matrix")
+			sm.count("e2e:cycle-matrix:layout-" + f[1])
+			sm.count(fmt.Sprintf("e2e:cycle-matrix:length-%d", len(f[2])-2))
+			if strings.Contains(f[2], "R") {
+				sm.count("e2e:cycle-matrix:with-relative-edge")
+			}
+			if strings.Contains(f[2][2:], "V") || f[2][0] == 'V' {
+				sm.count("e2e:cycle-matrix:with-vendor-edge")
+			}
+			if c.Quiet {
+				sm.count("e2e:cycle-matrix:quiet-packages")
+			}
+			if strings.HasPrefix(r.ref.Text, "contract") {
+				sm.count("e2e:cycle-matrix:reference-is-the-contract")
+			} else {
+				sm.count("e2e:cycle-matrix:reference-is-go-run")
+			}
+		} else {
+			sm.count("e2e:" + c.Stream)
+		}
 		w := newC16World(c)
 		reach := c.reachable()
 		vend := 0
@@ -1564,6 +1918,9 @@ func runC16(args []string) error {
 			sm.count("e2e:has-unreachable-packages")
 		}
 		sm.count(fmt.Sprintf("e2e:loaded-packages:%d", min(len(reach), 8)))
+		if r.impl.MapFS.Opens > sm.Distribution["e2e:max-opens-of-a-mapfs-run"] {
+			sm.Distribution["e2e:max-opens-of-a-mapfs-run"] = r.impl.MapFS.Opens
+		}
 		if len(sm.Samples) < 4 && vend > 0 && len(reach) >= 4 {
 			sm.Samples = append(sm.Samples, map[string]any{"input": in, "yaegi": r.impl.Disk, "go": r.ref})
 		}
